@@ -68,7 +68,7 @@ ASSUMPTIONS = [
     "hold-out model: ceil(size * fraction) is computed over exact rationals; the harness uses dyadic fractions for which the float product is exact",
     "float scores cross the wire as order keys; DBAL scores themselves are not modelled here (C05), only the sub-sampling request",
     "source links: the hold-out theorems quantify over answers satisfying numpy's contract for rng.choice(array, k, replace=False) (k distinct elements of the array); the balanced one assumes the plates' row lists partition range(screen.size) (stated as two hypotheses; C14 proves it of Screen.plates); the random-scorer one assumes the dict's keys are distinct",
-    "source links: math.ceil(n * fraction) is the exact ceiling of n*num/den (primitive), as in the hand-written model; the DBAL link covers the sub-sampling statements only - the float arithmetic after them is not translated and stays under the runtime traps",
+    "source links: math.ceil(n * fraction) is the exact ceiling of n*num/den (primitive), as in the hand-written model; the DBAL link translates the sub-sampling statements only - the statements around them (shape checks, float arithmetic on the drawn indices) are not translated, but the translator refuses any identifier in them that is not on the configuration's list outside_names (their own variables, numpy array functions, logsumexp, C15's unranking kernel; not rng, nothing of numpy.random), and they stay under the runtime traps",
 ]
 EXPLANATION = (
     "Level 'other': trace conformance to a proved-explicit model plus runtime trapping.  Proved (Coq, closed under the global context): "
@@ -86,7 +86,9 @@ EXPLANATION = (
     "models other than SparseDrugCombo / SparseDrugComboInteraction, the nextflow pipelines, multi-process runs.  "
     "COVERED BY PROOF since the source-translation links (theorems C18_model_is_source_*): RandomScorer.score, "
     "create_random_holdout and create_plate_balanced_holdout_set_among_masked_plates (whole functions) and the triple "
-    "sub-sampling statements of dbal_fast_gauss_scoring_vectorized are re-translated from the tree under test on every run by "
+    "sub-sampling statements of dbal_fast_gauss_scoring_vectorized (the rest of that function may only mention the identifiers "
+    "listed in the configuration's outside_names - a new name such as rng, .random or default_rng there is refused) are "
+    "re-translated from the tree under test on every run by "
     "harness/py2gal.py into programs of the model's own resumption type (Generated/SrcRand.v; cfg monad = rprog), and the "
     "hand-written programs are proved equal to the translations (same requests in the same order, same outputs) for all "
     "inputs.  Meaning for C18: in a translated function a draw request can only come from a primitive that is a call on "
